@@ -68,6 +68,7 @@ TRelease == /\ Ev("Release") /\ ReleaseGate /\ KeepT
 TAcceptEnter == /\ Ev("AcceptEnter") /\ spc = "accept" /\ UNCHANGED vars /\ KeepT
 TAcceptConn == /\ Ev("AcceptConn") /\ L_AcceptConn(E.c) /\ KeepT
 TAcceptTimeout == /\ Ev("AcceptTimeout") /\ L_AcceptTimeout /\ KeepT
+TAcceptFail == /\ Ev("AcceptError") /\ L_AcceptFail /\ KeepT
 TAcceptClosed == /\ Ev("AcceptClosed") /\ L_AcceptClosed /\ KeepT
 
 (* the controlled listener saw Close(): it is the close inside Shutdown or inside teardown *)
@@ -139,7 +140,7 @@ Silent ==
      \/ SilentReal /\ UNCHANGED <<l, sdAct, rgAct, bdAct, sdl>>
 
 TraceNext == TReset \/ TInstall \/ TBindStart \/ TBindEnd \/ TServeStart \/ TListenStart \/ TServeReturn \/ TSetDeadline \/ TRelease
-             \/ TAcceptEnter \/ TAcceptConn \/ TAcceptTimeout \/ TAcceptClosed \/ TListenerClose
+             \/ TAcceptEnter \/ TAcceptConn \/ TAcceptTimeout \/ TAcceptFail \/ TAcceptClosed \/ TListenerClose
              \/ TShutdownStart \/ TShutdownEnd \/ TConnect \/ TConnectRefused \/ TClientEnd \/ TCtxCancel \/ TConnFirstRead
              \/ TConnClosed \/ TActive \/ TRegisterStart \/ TRegisterEnd \/ TIntrospect \/ Silent
 
